@@ -140,6 +140,19 @@ func (d *hashDriver) run(o hop) map[string]any {
 	switch {
 	case out.Kind != "val":
 		ev["res"] = projOutcome(d.env, out)
+		// an iteration that failed: what it presented before it did
+		if o.op == "range" || o.op == "rangego" || o.op == "rangego1" {
+			seen := []any{}
+			for _, t := range d.traced {
+				switch {
+				case len(t) == 2 && o.op != "rangego1":
+					seen = append(seen, []any{proj(d.env, t[0], 0), proj(d.env, t[1], 0)})
+				case len(t) == 1 && o.op == "rangego1":
+					seen = append(seen, proj(d.env, t[0], 0))
+				}
+			}
+			ev["seen"] = seen
+		}
 	case o.op == "range" || o.op == "rangego":
 		pairs := []any{}
 		for _, t := range d.traced {
